@@ -128,7 +128,7 @@ func (dec *Decoder) readStringAsSafeBytes(utf16Length int) []byte {
 
 // ReadStringAsBytes reads string as bytes.
 func (dec *Decoder) ReadStringAsBytes() (data []byte) {
-	data = dec.readStringAsSafeBytes(dec.ReadInt())
+	data = dec.readStringAsSafeBytes(dec.readCount())
 	dec.Skip()
 	return
 }
@@ -154,14 +154,14 @@ func (dec *Decoder) readSafeString(utf16Length int) (s string) {
 
 // ReadUnsafeString reads unsafe string.
 func (dec *Decoder) ReadUnsafeString() (s string) {
-	s = dec.readUnsafeString(dec.ReadInt())
+	s = dec.readUnsafeString(dec.readCount())
 	dec.Skip()
 	return
 }
 
 // ReadSafeString reads safe string.
 func (dec *Decoder) ReadSafeString() (s string) {
-	s = dec.readSafeString(dec.ReadInt())
+	s = dec.readSafeString(dec.readCount())
 	dec.Skip()
 	return
 }
